@@ -4,4 +4,4 @@ CONSTANTS
   OtherNames = {"foo", "detect.bak", "build.sh", "rebuild", "Detect", "detect-v2"}
   EmitTR = TRUE
 CHECK_DEADLOCK FALSE
-INVARIANTS DetectExit0 DetectExit100 ErrorHandledOnce BuildWritesExactlyProvided GuardsBeforeUserCode RightPhase
+INVARIANTS DetectExit0 DetectExit100 ErrorHandledOnce BuildWritesExactlyProvided GuardsBeforeUserCode RightPhase TelemetryMatchesExit
